@@ -21,7 +21,8 @@ REQUIRE = {'streams_with_long_row': 50, 'streams_without_long_row': 50, 'long_ro
            'mode_pop': 20, 'two_long_rows_same_start': 5, 'streams_with_empty_row': 30,
            'rows_of_32_or_more_cells_with_leading_blanks': 20,
            'rows_over_32_cells_only_through_trailing_blanks': 20,
-           'streams_with_erased_cells': 100, 'reads_with_option_lang': 50, 'reads_with_option_simulate_roll_up': 50}
+           'streams_with_erased_cells': 100, 'reads_by_a_reader_object_used_before': 100,
+           'reads_by_a_reader_object_whose_previous_read_was_refused': 50, 'reads_with_option_lang': 50, 'reads_with_option_simulate_roll_up': 50}
 
 LENGTHS = [0, 0, 1, 5, 12, 20, 28, 31, 32, 32, 32, 33, 33, 34, 40]
 
@@ -41,8 +42,12 @@ def cases(ctx):
         if rng.random() < 0.1:
             kw['offset'] = 0
         edits = rng.random() < 0.3
-        yield {'stream': G.gen_stream(rng, modes=modes, lengths=lengths, tagged=True, trailing=True, edits=edits),
-               'read_kwargs': kw}
+        case = {'stream': G.gen_stream(rng, modes=modes, lengths=lengths, tagged=True, trailing=True, edits=edits),
+                'read_kwargs': kw}
+        if rng.random() < 0.25:
+            # the reader object has read another document before (a read that was refused, in many of them)
+            case['prior_doc'] = G.prior_doc(rng)
+        yield case
 
 
 def _len(row):
@@ -114,7 +119,7 @@ def check(case, ctx):
     # limit to it: a stream without an over-long row may then be refused as well
     joined = bool(kw.get('simulate_roll_up')) and any(seg['mode'] == 'roll' for seg in st['segments'])
     try:
-        cs = SCCReader().read(doc, **kw)
+        cs = G.reader_for(case, ctx).read(doc, **kw)
     except CaptionLineLengthError as e:
         msg = str(e)
         ctx.count('errors_checked')
